@@ -1318,6 +1318,9 @@ def shards(tier, seed):
         _split_members(specs, "sortE", dict(N=4, G=1, times=W), 150)
         _split_members(specs, "sortE", dict(N=4, G=1, times=W), 150, dict(meta=False))
         _split_members(specs, "sortE", dict(N=4, G=2, times=I), 25)
+        # parent times that are consecutive doubles / beyond single precision: the sort key is the exact time
+        _split_members(specs, "sortE", dict(N=3, G=2, times=W, timescale="ulp"), 60)
+        _split_members(specs, "sortE", dict(N=4, G=1, times=I, timescale="huge"), 40)
         _split_members(specs, "sortE", dict(N=3, G=3, times=I, squash=False), 12)
         for k in range(12):
             specs.append(dict(kind="sortSM", maxS=3, maxM=3, sweepS=2, sweepM=2, k=k, n=12))
